@@ -14,15 +14,17 @@ import (
 )
 
 type verifRead struct {
-	data []byte
-	peer net.Addr
-	err  error
+	data       []byte
+	peer       net.Addr
+	err        error
+	closeFirst bool // the server's Close lands while this read is in flight; the datagram is still delivered
 }
 
 type verifConn struct {
 	script []verifRead
 	pos    int
 	closes int
+	srv    *Server
 }
 
 var errVerifRead = errors.New("verif: read failed")
@@ -39,6 +41,9 @@ func (c *verifConn) ReadFrom(b []byte) (int, net.Addr, error) {
 	c.pos++
 	if r.err != nil {
 		return 0, nil, r.err
+	}
+	if r.closeFirst && c.srv != nil {
+		c.srv.Close()
 	}
 	n := copy(b, r.data)
 	return n, r.peer, nil
@@ -100,7 +105,8 @@ func verifPeer(kind int) (a *net.UDPAddr, wantIP []byte) {
 }
 
 // VerifC14Serve: a script of up to three reads; kinds (one digit per slot, 9 = no slot):
-// 0 valid packet, 1 undecodable bytes, 2 empty read, 4 connection closed concurrently.
+// 0 valid packet, 1 undecodable bytes, 2 empty read, 4 connection closed concurrently, 7 valid
+// packet during whose read the server is closed.
 // peers: one digit per slot (see verifPeer).
 func VerifC14Serve(k1, k2, k3, peers int) {
 	conn := &verifConn{}
@@ -115,7 +121,7 @@ func VerifC14Serve(k1, k2, k3, peers int) {
 		peer, wantIP := verifPeer(pk % 10)
 		pk /= 10
 		switch kind {
-		case 0:
+		case 0, 7:
 			var e verifExpect
 			e.valid = true
 			copy(e.xid[:], verifBytes("xid", 4))
@@ -126,8 +132,11 @@ func VerifC14Serve(k1, k2, k3, peers int) {
 			e.val = verifBytes("val", 3)
 			e.peerIP, e.peerPort = wantIP, peer.Port
 			p := &dhcpv4.DHCPv4{OpCode: dhcpv4.OpcodeType(e.op), HWType: 1, TransactionID: e.xid, ClientHWAddr: net.HardwareAddr{2, 0, 0, 0, 0, 1}, Options: dhcpv4.Options{e.code: e.val}}
-			conn.script = append(conn.script, verifRead{data: p.ToBytes(), peer: peer})
+			conn.script = append(conn.script, verifRead{data: p.ToBytes(), peer: peer, closeFirst: kind == 7})
 			exp = append(exp, e)
+			if kind == 7 && closedAt < 0 {
+				closedAt = i + 1 // Close landed during this read: nothing after it is read
+			}
 		case 1:
 			conn.script = append(conn.script, verifRead{data: verifBytes("junk", 7), peer: peer})
 		case 2:
@@ -146,6 +155,7 @@ func VerifC14Serve(k1, k2, k3, peers int) {
 		calls = append(calls, verifCallRec{c, peer, m})
 		mu.Unlock()
 	}}
+	conn.srv = s
 	err := s.Serve()
 	verifSettle() // let every handler goroutine run
 	// handlers may outlive later reads: messages are inspected only now, after every read
@@ -165,10 +175,8 @@ func VerifC14Serve(k1, k2, k3, peers int) {
 		if closedAt >= 0 && i >= closedAt {
 			break
 		}
-		if kind == 0 {
+		if kind == 0 || kind == 7 {
 			want = append(want, exp[idx])
-		}
-		if kind == 0 {
 			idx++
 		}
 	}
